@@ -409,6 +409,7 @@ func (s *Subscription) RemoveNodeIDs(ctx context.Context, nodes ...*ua.NodeID) e
 	}
 
 	var toRemove []Item
+	s.mu.RLock()
 	for _, node := range nodes {
 		for _, item := range s.itemLookup {
 			if item.nodeID.String() == node.String() {
@@ -417,6 +418,7 @@ func (s *Subscription) RemoveNodeIDs(ctx context.Context, nodes ...*ua.NodeID) e
 			}
 		}
 	}
+	s.mu.RUnlock()
 
 	return s.RemoveMonitorItems(ctx, toRemove...)
 }
@@ -533,6 +535,7 @@ func (s *Subscription) SetMonitoringModeForNodeIDs(ctx context.Context, monitori
 	}
 
 	var toSet []Item
+	s.mu.RLock()
 	for _, node := range nodes {
 		for _, item := range s.itemLookup {
 			if item.nodeID.String() == node.String() {
@@ -541,6 +544,7 @@ func (s *Subscription) SetMonitoringModeForNodeIDs(ctx context.Context, monitori
 			}
 		}
 	}
+	s.mu.RUnlock()
 
 	return s.SetMonitoringMode(ctx, monitoringMode, toSet...)
 }
